@@ -209,3 +209,75 @@ VMC_SEQ_HARNESS(traits_corpus, "C11,C01") {
   g_selected = vmc::choose(total);
   all_exprs();
 }
+
+// ---- completion context when a value's copy/move throws inside the hop ------------------------------------------
+// via / typed_via / with_scheduler_affinity / finally(s, schedule(sched)) promise that the result is delivered on the
+// scheduler's context whatever the channel.  The source completes on a foreign context with a value whose n-th
+// copy/move throws (n enumerated, "never" included), the hop is a separate event that runs on the scheduler's context.
+namespace {
+int g_tv_countdown = -1;   // -1: never throws
+struct TV {
+  int v = 0;
+  TV() = default;
+  explicit TV(int x) : v(x) {}
+  TV(const TV& o) : v(o.v) { tick(); }
+  TV(TV&& o) : v(o.v) { tick(); }
+  TV& operator=(const TV&) = default;
+  static void tick() { if (g_tv_countdown >= 0 && g_tv_countdown-- == 0) throw kit::tagged_error{77}; }
+};
+struct TVLeaf {
+  template <template <class...> class V, template <class...> class T> using value_types = V<T<TV>>;
+  template <template <class...> class V> using error_types = V<std::exception_ptr>;
+  static constexpr bool sends_done = false;
+  template <class R>
+  struct Op {
+    R r;
+    void start() noexcept {
+      ex::g->pending.push_back(ex::Pending{0, 3, [this] {
+        TV v{5};
+        UNIFEX_TRY { unifex::set_value(std::move(r), std::move(v)); }
+        UNIFEX_CATCH(...) { unifex::set_error(std::move(r), std::current_exception()); }
+      }, true});
+    }
+  };
+  template <class R> Op<std::decay_t<R>> connect(R&& r) const& { return Op<std::decay_t<R>>{(R&&)r}; }
+};
+template <class Mk>
+void hop_case(const char* name, Mk mk, int expect_ctx) {
+  ex::Ctx ctx; ex::g = &ctx; ctx.defer_sched = true;
+  kit::RcvState rs; rs.props = "C11,C01"; inplace_stop_source src; int cctx = -1;
+  {
+    auto snd = mk();
+    auto op = unifex::connect(std::move(snd), TopRcv{&rs, src.get_token(), &cctx});
+    ctx.cur_ctx = 7;
+    unifex::start(op);
+    ctx.cur_ctx = 0;
+    for (size_t i = 0; i < ctx.pending.size(); ++i) {
+      if (!ctx.pending[i].alive) continue;
+      ctx.pending[i].alive = false;
+      auto fire = std::move(ctx.pending[i].fire);
+      int save = ctx.cur_ctx; ctx.cur_ctx = ctx.pending[i].sched_ctx >= 0 ? ctx.pending[i].sched_ctx : 0;
+      fire();
+      ctx.cur_ctx = save;
+    }
+    if (rs.count != 1) vmcrt::fail("C01,C11", "lost-completion", (std::string(name) + ": completed " + std::to_string(rs.count) + " times").c_str());
+    if (cctx != expect_ctx)
+      vmcrt::fail("C11", "wrong-context", (std::string(name) + ": completed with " + rs.str() + " on context " + std::to_string(cctx) + ", promised " + std::to_string(expect_ctx)).c_str());
+  }
+  if (ctx.sched_ops_alive != 0) vmcrt::fail("C02", "sched-op-leak", "schedule() operation leaked");
+  vmcrt::note((std::string(name) + ":" + rs.str()).c_str());
+  ex::g = nullptr;
+}
+}  // namespace
+VMC_SEQ_HARNESS(ctx_throwing_value, "C11,C05") {
+  int which = vmcrt::choose(5);
+  g_tv_countdown = vmcrt::choose(7) - 1;   // never, or the 1st .. 6th copy/move throws
+  switch (which) {
+    case 0: hop_case("via", [] { return via(TVLeaf{}, ex::tag_sched{9}); }, 9); break;
+    case 1: hop_case("typed_via", [] { return typed_via(TVLeaf{}, ex::tag_sched{9}); }, 9); break;
+    case 2: hop_case("with_scheduler_affinity", [] { return with_scheduler_affinity(TVLeaf{}, ex::tag_sched{9}); }, 9); break;
+    case 3: hop_case("finally(schedule)", [] { return finally(TVLeaf{}, schedule(ex::tag_sched{9})); }, 9); break;
+    default: hop_case("then(via)", [] { return then(via(TVLeaf{}, ex::tag_sched{9}), [](TV v) { return v.v; }); }, 9); break;
+  }
+  g_tv_countdown = -1;
+}
